@@ -537,6 +537,10 @@ def vp_isinstance(o, t):
         t = builtins.int
     elif t is vp_float:
         t = builtins.float
+    elif t is vp_dict:
+        t = builtins.dict
+    elif t is vp_set:
+        t = builtins.set
     if isinstance(o, FieldStr):
         if t is builtins.str:
             return not o._binary
@@ -927,6 +931,29 @@ def vp_tick_():
         raise LoopBound("while loop exceeded %d iterations" % FUEL[1])
 
 
+def vp_dict_fn(*a, **k):
+    """real dict (CrossHair's replacement reorders keys on overwrite)"""
+    d = {}
+    d.update(*a, **k)
+    return d
+
+
+vp_dict = _Proxy(vp_dict_fn, builtins.dict)
+
+
+def vp_set_fn(*a):
+    """real set: iteration order is the hash order a real run with this PYTHONHASHSEED has"""
+    s = {0}
+    s.clear()
+    if a:
+        for x in a[0]:
+            s.add(x)
+    return s
+
+
+vp_set = _Proxy(vp_set_fn, builtins.set)
+
+
 INJECT = {
     "vp_fmt_": vp_fmt_,
     "vp_fstr_": vp_fstr_,
@@ -939,4 +966,6 @@ INJECT = {
     "float": vp_float,
     "round": vp_round,
     "isinstance": vp_isinstance,
+    "dict": vp_dict,
+    "set": vp_set,
 }
